@@ -71,6 +71,9 @@ class Ctx:
         violation of the *specification* is a machinery failure (the intended design must
         satisfy its properties); with a name, TLC must find exactly that violation."""
         r = tlc.run(module, cfg, **kw)
+        return self.account(r, module, label, expect_violation)
+
+    def account(self, r, module, label=None, expect_violation=None):
         self.states += r.distinct
         self.transitions += r.generated
         for a, n in r.coverage.items():
